@@ -90,6 +90,7 @@ func (mgr *GCMgr) UpdateHtreePos(bkt *Bucket, ki *KeyInfo, oldPos, newPos Positi
 			bkt.ID, ki.StringKey, meta, oldPos)
 		return
 	}
+	verifPoint("gc:before-repoint")
 	bkt.htree.set(ki, meta, newPos)
 }
 
@@ -206,6 +207,7 @@ func (mgr *GCMgr) gc(bkt *Bucket, startChunkID, endChunkID int, merge bool) {
 	}()
 	gc.Begin = startChunkID
 	gc.End = endChunkID
+	verifPoint("gc:start")
 
 	var oldPos Position
 	var newPos Position
@@ -276,6 +278,7 @@ func (mgr *GCMgr) gc(bkt *Bucket, startChunkID, endChunkID int, merge bool) {
 			if rec == nil {
 				break
 			}
+			verifPoint("gc:before-newest-check")
 
 			var isNewest, isCoverdByCollision, isDeleted bool
 			meta := rec.Payload.Meta
@@ -322,6 +325,7 @@ func (mgr *GCMgr) gc(bkt *Bucket, startChunkID, endChunkID int, merge bool) {
 			if recsize+dstchunk.writingHead > uint32(Conf.DataFileMax) {
 				dstchunk.endGCWriting()
 				bkt.hints.trydump(gc.Dst, true)
+				verifPoint("gc:dst-switch")
 
 				gc.Dst++
 				newPos.ChunkID = gc.Dst
@@ -333,11 +337,13 @@ func (mgr *GCMgr) gc(bkt *Bucket, startChunkID, endChunkID int, merge bool) {
 					return
 				}
 			}
+			verifPoint("gc:before-copy")
 			if newPos.Offset, err = dstchunk.AppendRecordGC(wrec); err != nil {
 				gc.Err = err
 				logger.Errorf("gc failed: %s", err.Error())
 				return
 			}
+			verifPoint("gc:after-copy")
 			// logger.Infof("%s %v %v", ki.StringKey, newPos, meta)
 			if found {
 				if isCoverdByCollision {
@@ -346,18 +352,22 @@ func (mgr *GCMgr) gc(bkt *Bucket, startChunkID, endChunkID int, merge bool) {
 				mgr.UpdateHtreePos(bkt, ki, oldPos, newPos)
 			}
 
+			verifPoint("gc:before-hint")
 			rotated := bkt.hints.set(ki, &meta, newPos, recsize, "gc")
 			if rotated {
 				bkt.hints.trydump(gc.Dst, false)
 			}
 		}
 
+		verifPoint("gc:before-clear")
 		if gc.Src != gc.Dst {
 			bkt.datas.chunks[gc.Src].Clear()
 		}
+		verifPoint("gc:after-clear")
 		if gc.Src+1 >= bkt.NextGCChunk {
 			bkt.NextGCChunk = gc.Src + 1
 			bkt.dumpGCHistroy()
+			verifPoint("gc:after-nextgc")
 		}
 		logger.Infof("end GC file %#v", fileState)
 		gc.add(&fileState)
